@@ -132,7 +132,7 @@ func genCase(t *rapid.T) Case {
 	if rapid.IntRange(0, 2).Draw(t, "nooff") == 0 {
 		off = pt{}
 	}
-	switch rapid.SampledFrom([]string{"polygons", "polygons", "polygons", "lines", "points", "zero-area", "ring"}).Draw(t, "mode") {
+	switch rapid.SampledFrom([]string{"polygons", "polygons", "polygons", "lines", "points", "zero-area", "ring", "far-members", "thin-frame"}).Draw(t, "mode") {
 	case "points":
 		c.Mode = "points"
 		n := rapid.IntRange(1, 50).Draw(t, "n")
@@ -187,6 +187,31 @@ func genCase(t *rapid.T) Case {
 			cc := pt{a[0] + k2*d[0], a[1] + k2*d[1]}
 			c.Polys = append(c.Polys, [][]pt{{a, b, cc, a}})
 		}
+	case "far-members":
+		// small members a long way from the first polygon's first vertex (the documented
+		// base point of the triangle fan): each member's net area is a tiny difference of
+		// huge triangle areas
+		c.Mode, c.Class = "polygons", "far-members"
+		np := rapid.IntRange(2, 3).Draw(t, "np")
+		d := int64(1) << uint(rapid.IntRange(20, 44).Draw(t, "dexp"))
+		r := rapid.Int64Range(2, 40).Draw(t, "r")
+		for i := 0; i < np; i++ {
+			ctr := pt{off[0] + int64(i)*d, off[1] + int64(i%2)*d/2}
+			c.Polys = append(c.Polys, [][]pt{decorate(t, star(t, ctr, r, rapid.IntRange(3, 8).Draw(t, "fn"), fmt.Sprintf("far%d", i)), fmt.Sprintf("far%d", i))})
+		}
+	case "thin-frame":
+		// a hole that fills all but a hair-thin, uneven frame of its shell: the net area
+		// is a tiny fraction of the triangle areas it is summed from, and the centroid
+		// sits far from the middle
+		c.Mode, c.Class = "polygons", "thin-frame"
+		w := int64(1) << uint(rapid.IntRange(12, 40).Draw(t, "wexp"))
+		h := w / int64(rapid.IntRange(1, 4).Draw(t, "aspect"))
+		il, ir := rapid.Int64Range(1, 3).Draw(t, "il"), rapid.Int64Range(1, 9).Draw(t, "ir")
+		ib, it := rapid.Int64Range(1, 3).Draw(t, "ib"), rapid.Int64Range(1, 9).Draw(t, "it")
+		x0, y0 := off[0], off[1]
+		shell := []pt{{x0, y0}, {x0 + w, y0}, {x0 + w, y0 + h}, {x0, y0 + h}, {x0, y0}}
+		hole := []pt{{x0 + il, y0 + ib}, {x0 + il, y0 + h - it}, {x0 + w - ir, y0 + h - it}, {x0 + w - ir, y0 + ib}, {x0 + il, y0 + ib}}
+		c.Polys = [][][]pt{{decorate(t, shell, "fshell"), decorate(t, hole, "fhole")}}
 	case "ring":
 		c.Mode, c.Class = "polygons", "single-ring"
 		r := rapid.Int64Range(2, 50000).Draw(t, "r")
@@ -482,16 +507,19 @@ func propPolygons(c Case, l geom.Layout, polys [][][]pt, what string) error {
 	} else {
 		three := big.NewRat(3, 1)
 		wx, wy = exact.Quo(MX, exact.Mul(three, A2)), exact.Quo(MY, exact.Mul(three, A2))
-		// forward bound over the library's fan decomposition about its base point
-		base := ep(polys[0][0][0])
+		// forward bound over a fan decomposition of every ring about the ring's own first
+		// vertex: the magnitudes of the two products of each triangle's doubled area (their
+		// rounding, and the rounding of the running sums, is what "within rounding" means
+		// for an area-weighted mean) times the triangle's tripled centroid
 		sumx, sumy := new(big.Rat), new(big.Rat)
 		n := int64(0)
 		for _, p := range polys {
 			for _, r := range p {
+				base := ep(r[0])
 				for i := 0; i+1 < len(r); i++ {
 					a, b := ep(r[i]), ep(r[i+1])
 					n++
-					ar := rabs(exact.Cross(base, a, b))
+					ar := exact.Add(rabs(exact.Mul(exact.Sub(a.X, base.X), exact.Sub(b.Y, base.Y))), rabs(exact.Mul(exact.Sub(b.X, base.X), exact.Sub(a.Y, base.Y))))
 					sumx.Add(sumx, exact.Mul(ar, rabs(exact.Add(exact.Add(base.X, a.X), b.X))))
 					sumy.Add(sumy, exact.Mul(ar, rabs(exact.Add(exact.Add(base.Y, a.Y), b.Y))))
 				}
